@@ -33,6 +33,13 @@ class ConclusionSelector(LogicalBinaryOperator, ABC):
         default_factory=lambda: {True: SeenSet(), False: SeenSet()}, init=False
     )
 
+    _last_recorded_: Optional[typing.Tuple[SeenSet, Dict]] = field(
+        default=None, init=False, repr=False
+    )
+    """
+    What `update_conclusion` recorded for the result that is currently being processed, if anything.
+    """
+
     def update_conclusion(
         self, output: OperationResult, conclusions: typing.Set[Conclusion]
     ) -> None:
@@ -41,6 +48,7 @@ class ConclusionSelector(LogicalBinaryOperator, ABC):
 
         Uses canonical tuple keys for stable deduplication.
         """
+        self._last_recorded_ = None
         if not conclusions:
             return
         required_vars = HashedIterable()
@@ -56,9 +64,24 @@ class ConclusionSelector(LogicalBinaryOperator, ABC):
         # variables than the branch before it), only a repetition of the same conclusions is a duplicate.
         required_output.update({conclusion._id_: True for conclusion in conclusions})
 
-        if not self.concluded_before[not self._is_false_].check(required_output):
+        seen_set = self.concluded_before[not self._is_false_]
+        if not seen_set.check(required_output):
             self._conclusion_.update(conclusions)
-            self.concluded_before[not self._is_false_].add(required_output)
+            seen_set.add(required_output)
+            self._last_recorded_ = (seen_set, required_output)
+
+    def _revoke_last_conclusion_(self) -> None:
+        """
+        The conclusion of the result that is currently being processed was overridden by a selector further up (an
+        exception holds), so it was not concluded and must be concluded when it comes up again for another binding.
+        """
+        if self._last_recorded_ is not None:
+            seen_set, recorded = self._last_recorded_
+            seen_set.discard(recorded)
+            self._last_recorded_ = None
+        for operand in (self.left, self.right):
+            if isinstance(operand, ConclusionSelector):
+                operand._revoke_last_conclusion_()
 
     def _reset_evaluation_state_(self) -> None:
         """
@@ -132,6 +155,9 @@ class ExceptIf(ConclusionSelector):
             for right_value in self.right._evaluate__(left_value.bindings, parent=self):
                 if right_value.is_false:
                     continue
+                if not right_yielded and isinstance(self.left, ConclusionSelector):
+                    # the exception holds: what the left side concluded for this binding is overridden.
+                    self.left._revoke_last_conclusion_()
                 right_yielded = True
                 yield from self.yield_and_update_conclusion(
                     right_value, self.right._conclusion_
